@@ -702,10 +702,22 @@ func (i *Interpreter) ExecuteRoute(route *Route, request *Request) (*Response, e
 		}, nil
 	}
 
-	// Status-carrying JSON responses (guards and `> value :: N`) skip the
-	// declared-return-type check: guard error bodies intentionally differ
-	// from the route's success type.
+	// Status-carrying JSON responses (guards and `> value :: N`): an error
+	// status skips the declared-return-type check - guard error bodies
+	// intentionally differ from the route's success type. A success status
+	// does not: `> {name: 42} :: 201` must not get past `-> Profile` because
+	// it names the status it would have had anyway.
 	if sr, ok := result.(*StatusResponse); ok {
+		if route.ReturnType != nil && sr.StatusCode >= 200 && sr.StatusCode < 300 {
+			if err := i.typeChecker.CheckType(sr.Body, route.ReturnType); err != nil {
+				return &Response{
+					StatusCode: 500,
+					Body: map[string]interface{}{
+						"error": "Internal server error",
+					},
+				}, fmt.Errorf("return type mismatch in route %s %s: %v", route.Method, route.Path, err)
+			}
+		}
 		return &Response{
 			StatusCode: sr.StatusCode,
 			Body:       sr.Body,
